@@ -312,14 +312,14 @@ def random_instr(rng, depth, max_len, ids):
     return ('I', brs)
 
 
-def random_tabs(rng, ids=4, stop_prob=0.08):
+def random_tabs(rng, ids=4, stop_prob=0.08, with_awaitable=False):
     tabs = {'S': {}, 'P': {}}
     for f in range(ids + 8):
         n = rng.randint(0, 4)
         vals = []
         for _ in range(n):
             r = rng.random()
-            vals.append(rng.randint(0, 9) if r < stop_prob else ('A', rng.randint(0, 9)) if r < stop_prob + 0.04 else 'T' if r < 0.35 else None)
+            vals.append(rng.randint(0, 9) if r < stop_prob else ('A', rng.randint(0, 9)) if (with_awaitable and r < stop_prob + 0.04) else 'T' if r < 0.35 else None)
         tabs['S'][f] = vals
     for p in range(ids + 8):
         n = rng.randint(0, 5)
